@@ -78,7 +78,8 @@ Tags   == << [n |-> "type", v |-> P0("food")], [n |-> "project", v |-> P0("x y")
              [n |-> "place", v |-> P0("food")],          \* the same value under two names (type:food, place:food)
              [n |-> "area", v |-> P0("north"), gap |-> 1],     \* a blank after the colon: "area: north"
              [n |-> "url", v |-> P0("http://a.b/c?d=1")], [n |-> "q", v |-> P0("\"quoted\"")], [n |-> "eq", v |-> P0("a=b (c) [d] @ 5")],
-             [n |-> "a-b", v |-> P0("1")], [n |-> "A_1", v |-> P0("x")] >>   \* names with a hyphen, an underscore, a capital and a digit
+             [n |-> "a-b", v |-> P0("1")], [n |-> "A_1", v |-> P0("x")],
+             [n |-> "поездка", v |-> P0("рим")] >>      \* a name that is not ASCII   \* names with a hyphen, an underscore, a capital and a digit
 FreeTexts == << P0("note"), P0(" spaced  text "), P("😀", 1), P0("paid in cash") >>
 
 (* ---- numbers ------------------------------------------------------------------------------- *)
@@ -342,7 +343,8 @@ Formats == <<
   [comm |-> 6, txt |-> "1,000.000000 AAPL", mark |-> ".", group |-> ",", places |-> 6] >>
 
 IncludePaths == << "b.journal", "sub/c.journal", "*.journal", "sub/<->/*.journal" >>
-IncludePathsX == IncludePaths \o << "a.journal", "s.journal", "x.journal", "main.journal", "sub/d.journal" >>
+IncludePathsX == IncludePaths \o << "a.journal", "s.journal", "x.journal", "main.journal", "sub/d.journal",
+                                   "Q4 report.journal", "2024 taxes.journal" >>      \* 10, 11: a path is free text, blanks included
 
 AbsDir(d) ==
     CASE d.dir = "account"   -> [type |-> "account", name |-> AccountsX[d.acct].s,
